@@ -95,6 +95,38 @@ CountersignStructure(parentKind, abbreviated, parentProt, csProt, ext, payloadFi
       base == <<Tstr(ctx), NormHead(parentProt), sp, Bstr(ext), Bstr(payloadField)>>
   IN Enc(Arr(IF v2 THEN Append(base, Arr(<<Bstr(otherSig)>>)) ELSE base))
 
+\* Sig_structure of signature slot i of a message of this kind, computed from its wire bytes; the verifier
+\* supplies `payload` when the message carries nil; a standalone COSE_Signature is verified against the
+\* given body_protected item.  <<>> when the bytes do not have the shape needed to form the structure.
+TbsOf(kind, b, i, ext, payload, standaloneBodyProt) ==
+  LET r == Body(kind, b) IN
+  IF ~r.ok THEN <<>>
+  ELSE LET it == r.item IN
+    CASE kind \in {"sign1", "sign1u"} ->
+           IF Len(it.xs) = 4 /\ IsBstr(it.xs[1]) /\ (IsBstr(it.xs[3]) \/ it.xs[3] = Null)
+           THEN Sig1Structure(it.xs[1], ext, IF it.xs[3] = Null THEN payload ELSE it.xs[3].b) ELSE <<>>
+      [] kind = "sign" ->
+           IF Len(it.xs) = 4 /\ IsBstr(it.xs[1]) /\ (IsBstr(it.xs[3]) \/ it.xs[3] = Null) /\ IsArr(it.xs[4]) /\ i <= Len(it.xs[4].xs)
+              /\ IsArr(it.xs[4].xs[i]) /\ Len(it.xs[4].xs[i].xs) = 3 /\ IsBstr(it.xs[4].xs[i].xs[1])
+           THEN SigStructure(it.xs[1], it.xs[4].xs[i].xs[1], ext, IF it.xs[3] = Null THEN payload ELSE it.xs[3].b) ELSE <<>>
+      [] kind \in {"sig", "csig"} ->
+           IF Len(it.xs) = 3 /\ IsBstr(it.xs[1]) THEN SigStructure(standaloneBodyProt, it.xs[1], ext, payload) ELSE <<>>
+
+
+\* number of signatures carried by a (parsable) message
+NSigs(kind, b) == LET r == Body(kind, b) IN
+  IF ~r.ok THEN 0 ELSE IF kind = "sign" THEN (IF Len(r.item.xs) = 4 /\ IsArr(r.item.xs[4]) THEN Len(r.item.xs[4].xs) ELSE 0) ELSE 1
+\* signature bytes of slot i (<<>> if not a byte string)
+SigBytesOf(kind, b, i) == LET r == Body(kind, b) IN
+  IF ~r.ok THEN <<>>
+  ELSE CASE kind \in {"sign1", "sign1u"} -> IF Len(r.item.xs) = 4 /\ r.item.xs[4].k = "bstr" THEN r.item.xs[4].b ELSE <<>>
+         [] kind = "sign" -> IF Len(r.item.xs) = 4 /\ IsArr(r.item.xs[4]) /\ i <= Len(r.item.xs[4].xs) /\ IsArr(r.item.xs[4].xs[i])
+                               /\ Len(r.item.xs[4].xs[i].xs) = 3 /\ r.item.xs[4].xs[i].xs[3].k = "bstr" THEN r.item.xs[4].xs[i].xs[3].b ELSE <<>>
+         [] kind \in {"sig", "csig"} -> IF Len(r.item.xs) = 3 /\ r.item.xs[3].k = "bstr" THEN r.item.xs[3].b ELSE <<>>
+\* protected bstr item that governs slot i (the signer's own layer)
+SignerProtOf(kind, b, i) == LET it == Body(kind, b).item IN
+  CASE kind \in {"sign1", "sign1u", "sig", "csig"} -> it.xs[1] [] kind = "sign" -> it.xs[4].xs[i].xs[1]
+
 \* ---------------------------------------------------------------------------
 \* C09: what re-encoding a decoded message must produce
 \* ---------------------------------------------------------------------------
